@@ -36,7 +36,7 @@ Theorem dmrs_nodes_spec m d : dmrs_from_mrs m = COk d ->
   exists ids reps, ep_ids (m_rels m) = Some ids /\ representatives m = Some reps /\
     d_nodes d = map (node_of m ids) (eps m ids) /\
     map snd (eps m ids) = m_rels m /\
-    d_links d = flat_map fst (per_arg m ids reps) ++ mod_links ids reps.
+    d_links d = flat_map fst (per_arg m ids reps) ++ mod_links ids reps ++ extra_links m ids reps.
 Proof.
   unfold dmrs_from_mrs.
   destruct (ep_ids (m_rels m)) as [ids|] eqn:Ei; [|discriminate].
@@ -124,7 +124,32 @@ Inductive link_justified (m : mrs) (ids : list str) (reps : list (str * list str
 | lj_mod lbl f rest s :
     (* MOD/EQ from a later to the first representative of one scope *)
     In (lbl, f :: rest) reps -> In s rest ->
+    link_justified m ids reps (nid_of ids s, nid_of ids f, MOD_ROLE, POST_EQ)
+| lj_mod2 lbl f rest s e :
+    (* MOD/EQ from another member of the scope (one not tied to the first representative
+       by /EQ links) to its first representative *)
+    dict_get lbl reps = Some (f :: rest) -> In (s, e) (eps m ids) -> e_label e = lbl ->
     link_justified m ids reps (nid_of ids s, nid_of ids f, MOD_ROLE, POST_EQ).
+
+Lemma scope_extra_links edges first members l : In l (scope_extra edges first members) ->
+  exists x, In x members /\ l = (x, first, MOD_ROLE, POST_EQ).
+Proof.
+  unfold scope_extra.
+  assert (G : forall mem acc, (forall l, In l (snd acc) -> exists x, In x members /\ l = (x, first, MOD_ROLE, POST_EQ)) ->
+              incl mem members ->
+              forall l, In l (snd (fold_left (fun acc x =>
+                    let '(seen, out) := acc in
+                    if existsb (Z.eqb x) seen then acc
+                    else (seen ++ component edges x, out ++ [(x, first, MOD_ROLE, POST_EQ)])) mem acc)) ->
+              exists x, In x members /\ l = (x, first, MOD_ROLE, POST_EQ)).
+  { induction mem as [|y mem IH]; intros [seen out] Hacc Hinc l0 Hl; cbn [fold_left] in Hl; [apply Hacc; exact Hl|].
+    destruct (existsb (Z.eqb y) seen).
+    - apply (IH (seen, out)); [exact Hacc | intros z Hz; apply Hinc; right; exact Hz | exact Hl].
+    - apply (IH (seen ++ component edges y, out ++ [(y, first, MOD_ROLE, POST_EQ)])); [| intros z Hz; apply Hinc; right; exact Hz | exact Hl].
+      cbn [snd]. intros l1 H1. apply in_app_or in H1. destruct H1 as [H1|[<-|[]]]; [apply Hacc; exact H1|].
+      exists y. split; [apply Hinc; left; reflexivity | reflexivity]. }
+  apply G; [intros l0 [] | apply incl_refl].
+Qed.
 
 Theorem dmrs_links_justified m d : dmrs_from_mrs m = COk d ->
   exists ids reps, ep_ids (m_rels m) = Some ids /\ representatives m = Some reps /\
@@ -148,9 +173,18 @@ Proof.
       * destruct (dict_get tgt reps) as [[|r rest]|] eqn:Er; inversion E; subst ls w;
           try (destruct Hl'; fail).
         destruct Hl' as [<-|[]]. eapply lj_heq; eauto.
-  - unfold mod_links in Hin. apply in_flat_map in Hin. destruct Hin as ([lbl rs] & Hlr & Hm). simpl in Hm.
-    destruct rs as [|f rest]; [destruct Hm|].
-    apply in_map_iff in Hm. destruct Hm as (s & <- & Hs). eapply lj_mod; eauto.
+  - apply in_app_or in Hin. destruct Hin as [Hin|Hin].
+    + unfold mod_links in Hin. apply in_flat_map in Hin. destruct Hin as ([lbl rs] & Hlr & Hm). simpl in Hm.
+      destruct rs as [|f rest]; [destruct Hm|].
+      apply in_map_iff in Hm. destruct Hm as (s & <- & Hs). eapply lj_mod; eauto.
+    + unfold extra_links in Hin. apply in_flat_map in Hin. destruct Hin as ([lbl es] & _ & Hm). cbn [fst] in Hm.
+      destruct (members_of m ids lbl) as [|m1 [|m2 ms]] eqn:Em; try (destruct Hm; fail).
+      destruct (dict_get lbl reps) as [[|f rest]|] eqn:Er; try (destruct Hm; fail).
+      apply scope_extra_links in Hm. destruct Hm as (x & Hx & ->).
+      apply in_map_iff in Hx. destruct Hx as (s & <- & Hs). rewrite <- Em in Hs.
+      unfold members_of in Hs. apply in_map_iff in Hs. destruct Hs as ([s' e] & <- & Hf).
+      apply filter_In in Hf. destruct Hf as [Hin' Hl']. cbn [fst snd] in *. apply str_eqb_spec in Hl'.
+      eapply lj_mod2; eauto.
 Qed.
 
 (* ---- C05 ---- *)
